@@ -4,6 +4,7 @@ pub mod c05;
 pub mod c06;
 pub mod c11;
 pub mod c20;
+pub mod smoke;
 
 pub type Runner = fn(&Ctx) -> (Acc, Report);
 
@@ -12,6 +13,7 @@ pub fn lookup(id: &str) -> Option<(&'static str, Runner)> {
         "C05" => ("C05", c05::run as Runner),
         "C06" => ("C06", c06::run as Runner),
         "C11" => ("C11", c11::run as Runner),
+        "SMOKE" => ("SMOKE", smoke::run as Runner),
         "C20" => ("C20", c20::run as Runner),
         _ => return None,
     })
